@@ -226,6 +226,9 @@ class StmtMixin:
 
     def assign(self, tgt, v, st):
         if isinstance(tgt, ast.Name):
+            if tgt.id in self.global_decls():
+                m = self.cur_mod
+                return self.setattr(V("module", z3.IntVal(static_ref("module:" + m)), cls=m), tgt.id, v, st, tgt)
             st.env[tgt.id] = v
             return [st]
         if isinstance(tgt, (ast.Tuple, ast.List)):
